@@ -90,6 +90,14 @@ HNext(Hh, e) ==
    adds |-> Hh.adds + Len(e.log.adds), cancels |-> Hh.cancels + Len(e.log.cancels),
    ldrop |-> Hh.ldrop \cup {e.log.dropoffs[i][1] : i \in DOMAIN e.log.dropoffs}]      \* requests the log reports as dropped off
 
+\* the time-step statistics rows (spec/HiveStats.tla): mismatches are conformance divergences, never verdicts
+ST == INSTANCE HiveStats
+StatsDivg(e) ==
+  IF e.k = "stats" THEN ST!RowOK(e)
+  ELSE IF e.k = "stats_abort" THEN {<<"Stats", "handler_raised", e.error, e.n>>}
+  ELSE IF e.k = "stats_file" THEN {<<"Stats", "file_reads_back", e.what, e.rows>>}
+  ELSE {}
+
 Key(v) == <<v[1], v[2], v[3]>>
 Merge(reg, vs, ln) ==
   LET keys == {Key(v) : v \in vs} IN
@@ -97,17 +105,20 @@ Merge(reg, vs, ln) ==
      IF k \in DOMAIN reg THEN (IF k \in keys THEN [reg[k] EXCEPT !.n = @ + 1] ELSE reg[k])
      ELSE [line |-> ln, w |-> (CHOOSE v \in vs : Key(v) = k)[4], n |-> 1]]
 
-TraceInit == l = 1 /\ H = H0 /\ TLCSet(1, <<>>) /\ TLCSet(3, {}) /\ TLCSet(4, 0)
+TraceInit == l = 1 /\ H = H0 /\ TLCSet(1, <<>>) /\ TLCSet(2, <<>>) /\ TLCSet(3, {}) /\ TLCSet(4, 0)
 TraceNext ==
   /\ l <= Len(TLog)
   /\ LET e == TLog[l]
          vs == IF e.k = "step" THEN StepOK(e) ELSE IF e.k = "final" THEN FinalOK(H, e) ELSE {}
      IN /\ H' = IF e.k = "start" THEN H0 ELSE IF e.k = "step" THEN HNext(H, e) ELSE H
         /\ IF vs = {} THEN TRUE ELSE TLCSet(1, Merge(TLCGet(1), vs, l))
+        /\ LET ds == StatsDivg(e) IN IF ds = {} THEN TRUE ELSE TLCSet(2, Merge(TLCGet(2), ds, l))
         /\ TLCSet(3, TLCGet(3) \cup (IF e.k = "step" THEN {<<"events", x, "", "">> : x \in
               (IF e.log.pickups # <<>> THEN {"pickup"} ELSE {}) \cup (IF e.log.charges # <<>> THEN {"charge"} ELSE {})
               \cup (IF e.log.cancels # <<>> THEN {"cancel"} ELSE {}) \cup (IF e.log.moves # <<>> THEN {"move"} ELSE {})
-              \cup (IF e.log.dropoffs # <<>> THEN {"dropoff"} ELSE {})} ELSE {<<e.k, "", "", "">>}))
+              \cup (IF e.log.dropoffs # <<>> THEN {"dropoff"} ELSE {})}
+              ELSE IF e.k = "stats" THEN {<<"stats_row", IF e.fleet = "" THEN "global" ELSE IF e.fleet = "none" THEN "no_fleet" ELSE "fleet", "", "">>}
+              ELSE {<<e.k, "", "", "">>}))
         /\ TLCSet(4, l)
   /\ l' = l + 1
 TraceSpec == TraceInit /\ [][TraceNext]_<<l, H>>
@@ -115,7 +126,7 @@ TraceSpec == TraceInit /\ [][TraceNext]_<<l, H>>
 RegToSet(reg) == {[p |-> k[1], c |-> k[2], s |-> k[3], line |-> reg[k].line, w |-> reg[k].w, n |-> reg[k].n] : k \in DOMAIN reg}
 Done ==
   /\ PrintT(<<"VIOL", ToJson(RegToSet(TLCGet(1)))>>)
-  /\ PrintT(<<"DIVG", ToJson({})>>)
+  /\ PrintT(<<"DIVG", ToJson(RegToSet(TLCGet(2)))>>)
   /\ PrintT(<<"COVR", ToJson(TLCGet(3))>>)
   /\ PrintT(<<"LINES", TLCGet(4), Len(TLog)>>)
   /\ TLCGet(4) = Len(TLog)
